@@ -19,11 +19,14 @@ use std::collections::BTreeMap;
 use std::fmt::Write as FmtWrite;
 
 mod app;
+mod conv;
 mod db;
 mod link;
 mod master;
+mod msched;
 mod outstation;
 mod pair;
+mod tsync;
 
 pub(crate) struct Script {
     pub(crate) id: String,
@@ -183,6 +186,9 @@ fn run_script(script: &Script) -> Vec<String> {
                     "db" => db::run_db(script, &mut obs).await,
                     "master" => master::run_master(script, &mut obs).await,
                     "pair" => pair::run_pair(script, &mut obs).await,
+                    "conv" => conv::run_conv(script, &mut obs).await,
+                    "msched" => msched::run_msched(script, &mut obs).await,
+                    "tsync" => tsync::run_tsync(script, &mut obs).await,
                     other => obs.push(format!("unknown-engine {}", other)),
                 }
             })
